@@ -7,6 +7,7 @@ pub mod c05;
 pub mod c06;
 pub mod c07;
 pub mod c08;
+pub mod c09;
 pub mod c13;
 pub mod c14;
 
@@ -19,6 +20,7 @@ pub fn run(ctx: &mut Ctx) -> bool {
         "C06" => c06::run(ctx),
         "C07" => c07::run(ctx),
         "C08" => c08::run(ctx),
+        "C09" => c09::run(ctx),
         "C13" => c13::run(ctx),
         "C14" => c14::run(ctx),
         _ => return false,
